@@ -6,6 +6,7 @@ import (
 	"go/types"
 	"sort"
 	"sync"
+	"time"
 
 	"golang.org/x/tools/go/ssa"
 )
@@ -213,6 +214,31 @@ func (e *Exec) startCut(st *State, fr *Frame, h, prev *ssa.BasicBlock) {
 
 	// 2. dry runs: write set + phi re-pointing + Houdini over candidates
 	cands := e.synthCandidates(st, fr, h, phis, entry, body)
+	// candidates refuted in an earlier visit of this loop (nested loops are re-entered on every dry run of
+	// the enclosing loop) are not tried again: dropping a candidate only weakens what is assumed
+	{
+		key := loopKey{fr.Fn, ord}
+		if e.deadCands == nil {
+			e.deadCands = map[loopKey]map[string]bool{}
+		}
+		dead := e.deadCands[key]
+		if dead == nil {
+			dead = map[string]bool{}
+			e.deadCands[key] = dead
+		}
+		for _, cd := range cands {
+			if dead[cd.desc] {
+				cd.alive = false
+			}
+		}
+		defer func() {
+			for _, cd := range cands {
+				if !cd.alive {
+					dead[cd.desc] = true
+				}
+			}
+		}()
+	}
 	// init filter for candidates
 	{
 		var pend []*cand
@@ -873,6 +899,7 @@ func typeAt(t types.Type, path []PathElem) types.Type {
 
 // quickValidMany checks several goals under the same path condition, in parallel.
 func (e *Exec) quickValidMany(st *State, goals []*Term) []bool {
+	t0 := time.Now()
 	scripts := make([]string, len(goals))
 	for i, g := range goals {
 		asserts := append(append([]*Term{}, st.PC...), e.C.Not(g))
@@ -893,6 +920,7 @@ func (e *Exec) quickValidMany(st *State, goals []*Term) []bool {
 	}
 	wg.Wait()
 	e.houdiniQueries += len(goals)
+	debugf("quickMany n=%d %.2fs", len(goals), time.Since(t0).Seconds())
 	return res
 }
 
@@ -904,6 +932,8 @@ type arrival struct {
 
 // quickValidEach checks goal i under path condition of state i, in parallel.
 func (e *Exec) quickValidEach(sts []*State, goals []*Term) []bool {
+	t0 := time.Now()
+	defer func() { debugf("quickEach n=%d %.2fs", len(goals), time.Since(t0).Seconds()) }()
 	scripts := make([]string, len(goals))
 	for i, g := range goals {
 		asserts := append(append([]*Term{}, sts[i].PC...), e.C.Not(g))
